@@ -33,6 +33,9 @@ def error_branches(hir):
             sj = subject(x["scrut"])
             for a in x["arms"]:
                 if sj and any(render_pat(p).lstrip("&").startswith("Result::Err") for p in pat_alts(a["pat"])):
+                    if str(x.get("ty", "()")) not in ("()", "!") and not any(y["k"] in ("Continue", "Break", "Ret", "InlRet") for y in walk_exprs(a["body"])):
+                        # the arm supplies a fallback value and the flow goes on with it: no entry is skipped here
+                        continue
                     out.append(("err-arm of `%s`" % render(x["scrut"])[:40], a["body"], a["body"]))
         if x["k"] == "If":
             c = peel(x["c"], methods=False)
@@ -220,6 +223,7 @@ RULES = [
     ("C10-R3", "exit status mapping: no failure -> 0, failures -> 1 [shared with C10]", lambda ctx: c10.r3(ctx)),
     ("C04-R4", "per-entry memo: an unreadable entry keeps nothing of the previous entry [shared with C04]", lambda ctx: __import__("c04").r4(ctx)),
     ("C04-R8", "the byte count of Read::read bounds the data examined [shared with C04]", lambda ctx: __import__("extra2").read_amount_used(ctx)),
+    ("C07-R6", "an aggregate ranges over the readable data: empty cells of unreadable entries take no part in MIN / MAX [shared with C07]", lambda ctx: __import__("c07").r6(ctx)),
 ]
 
 EXPLANATION = (
